@@ -276,8 +276,9 @@ fn case_json(v: Pv, hs: Hs, m: usize, w: &[(u64, f64)]) -> Value {
 
 pub fn run(rep: &mut Report) {
     quiet_panics();
-    rep.rule = "per generated weighted set (n in 1..300, m in 1..1024, weights from 8 classes incl. 1e-300..1e300, all-tiny, all-huge, one dominating item) and variant: ~14-20 executions of the real code (7 insertion orders incl. heaviest/lightest first and winners first/last, all entry points and batchings, re-insertion, 3 vs 3a, weights x 2^k, union cover, single-item unpruned reference) compared bit-exactly on signature AND registers. Distinct = digest of (variant, m, items, weights); non-trivial when n >= 2".into();
+    rep.rule = "per generated weighted set (n in 1..300, and 16 / 96 sets with small m that are either 66000..140000 items large or 2..11 items inserted 66000..140000 times in total on one sketcher, m in 1..1024, weights from 8 classes incl. 1e-300..1e300, all-tiny, all-huge, one dominating item) and variant: ~14-20 executions of the real code (7 insertion orders incl. heaviest/lightest first and winners first/last, all entry points and batchings, re-insertion, 3 vs 3a, weights x 2^k, union cover, single-item unpruned reference) compared bit-exactly on signature AND registers. Distinct = digest of (variant, m, items, weights); non-trivial when n >= 2".into();
     let nsets: u64 = rep.tier.pick(30_000, 1_500_000);
+    let nlarge: u64 = rep.tier.pick(16, 96);
     let seed = subseed(rep.seed, "C02/sets", &[]);
     let only = rep.only_cell.clone();
     let results: Vec<(u64, Obs, Option<Value>, u64, u64)> = (0..nsets)
@@ -295,7 +296,11 @@ pub fn run(rep: &mut Report) {
                     _ => Hs::Fnv,
                 }
             };
+            // the last sets of the run are large (more items than 2^16: per-item counters of the implementation wrap inside one sketch)
+            let large = i + nlarge >= nsets;
             let n = match rng.random_range(0..10) {
+                _ if large && (i / 4) % 2 == 0 => rng.random_range(66_000..140_000),
+                _ if large => rng.random_range(2..12),
                 0 => 1,
                 1 => 2,
                 2 | 3 => rng.random_range(3..10),
@@ -303,6 +308,7 @@ pub fn run(rep: &mut Report) {
                 _ => rng.random_range(80..300),
             };
             let m = match rng.random_range(0..10) {
+                _ if large => [8usize, 3, 50, 2][((i / 8) % 4) as usize].max(v.min_m()),
                 0 => v.min_m(),
                 1 => 2,
                 2 => 3,
@@ -336,6 +342,15 @@ pub fn run(rep: &mut Report) {
             let r = catch(std::panic::AssertUnwindSafe(|| {
                 let mut o = Obs::new(hs);
                 check_set(v, hs, m, &w, &mut rng, do_singles, &mut o);
+                if large && n < 100 {
+                    // the same small set inserted again and again on one sketcher: more than 2^16 insertions in total
+                    let (sig0, reg0) = pmh(v, hs, m, &w, Entry::Item, PH);
+                    let reps = rng.random_range(66_000..140_000) / n + 1;
+                    let batches: Vec<&[(u64, f64)]> = (0..reps).map(|_| &w[..]).collect();
+                    let (s, r) = pmh_batches(v, hs, m, &batches, PH);
+                    o.execs += 2;
+                    same(&mut o, "reinsertion-heavy", &sig0, &reg0, &s, &r);
+                }
                 o
             }));
             match r {
